@@ -114,6 +114,10 @@ func (a *Application) executeTranslationRequest(
 	r.Body = io.NopCloser(bytes.NewReader(openaiBody))
 	r.ContentLength = int64(len(openaiBody))
 
+	// Olla reads the backend's answer itself in order to translate it, so the backend must not
+	// be asked for a content coding on the client's behalf (SDKs send Accept-Encoding: gzip)
+	r.Header.Del("Accept-Encoding")
+
 	// Handle path translation if specified
 	if transformedReq.TargetPath != "" {
 		targetPath := util.StripPrefix(transformedReq.TargetPath, constants.DefaultOllaProxyPathPrefix)
